@@ -12,6 +12,7 @@ mod symbol_replay;
 mod chain;
 mod drive;
 mod ans_bounded;
+mod ans_seek;
 mod chain_replay;
 
 fn optc<T: std::str::FromStr>(args: &[String], name: &str) -> Option<T> { args.iter().position(|a| a == name).and_then(|i| args.get(i + 1)).and_then(|s| s.parse().ok()) }
